@@ -1,5 +1,7 @@
 package main
 
+import "strings"
+
 // Facts for C13 (never back to the previous node, never twice to one peer): the shared node facts plus
 // the skeletons of the choice / bookkeeping functions of the replicating algorithms.
 
@@ -25,7 +27,15 @@ func init() {
 			if len(f.out) > 5 && f.out[len(f.out)-5:] == "Calls" {
 				x.StrList(f.out, x.Calls(fd))
 			} else {
-				x.StrList(f.out, x.Skeleton(fd))
+				// skeleton without assignments that only build a logger
+				var sk []string
+				for _, l := range x.Skeleton(fd) {
+					if strings.HasPrefix(strings.TrimSpace(l), "logger := ") {
+						continue
+					}
+					sk = append(sk, l)
+				}
+				x.StrList(f.out, sk)
 			}
 		}
 		return nil
